@@ -43,9 +43,17 @@ func (p *Provider[A]) SetAmmos(ammos []A) {
 	p.ammos = ammos
 }
 
-func (p *Provider[A]) Run(ctx context.Context, deps core.ProviderDeps) error {
+func (p *Provider[A]) Run(ctx context.Context, deps core.ProviderDeps) (err error) {
 	const op = "scenario.Provider.Run"
 	p.Deps = deps
+	defer func() {
+		// Instances blocked in Acquire should see that ammo is finished.
+		close(p.sink)
+		if errors.Is(err, decoders.ErrPassLimit) || errors.Is(err, decoders.ErrAmmoLimit) {
+			// Reaching ammo limits is successful finish, same as in other providers.
+			err = nil
+		}
+	}()
 
 	length := uint(len(p.ammos))
 	if length == 0 {
